@@ -15,8 +15,9 @@
       named, converts but out of range / list → untouched, not listed;
     each independently of the other properties; unknown names are skipped (never listed); the service's
     callback runs exactly once and lists exactly the replaced variables; other services: nothing.
-  "Well-formed property set" is read as: names free of braces and every variable named at most once
-  (`bodyWF`; `{ns}x` and `x` name the same variable).  Outside that the routed service's variables are
+  "Well-formed property set" is read as: names free of braces and, for every variable, one qualified tag
+  (`bodyWF`; `{ns}x` and `x` name the same variable but are not mixed within one event; a repeated element
+  assigns its last text).  Outside that the routed service's variables are
   compared with the model but not judged (status and the other services still are).  Conversion / validation are the model's `convert` / `validate` (int, str, lower-in kinds).
   Import-free (linked into the driver).
 -/
@@ -43,11 +44,14 @@ def nodupB : List Str → Bool
   | [] => true
   | a :: r => !r.contains a && nodupB r
 
-/-- well-formed property set: brace-free names, every variable (local name) at most once -/
-def bodyWF (b : Body) : Bool := (kids b).all childWF && nodupB ((kids b).map (·.name))
+/-- well-formed property set: brace-free names, and the elements naming one variable all carry the same
+    qualified tag (`x` and `{ns}x` are not mixed for the same `x`).  A tag may repeat: like every XML-to-map
+    reading of an event, the last occurrence is the value the event assigns. -/
+def bodyWF (b : Body) : Bool :=
+  (kids b).all childWF && (kids b).all fun c => (kids b).all fun c' => c.name != c'.name || c.ns == c'.ns
 
-/-- the text the property set carries for variable `x` -/
-def carried (x : Str) (b : Body) : Option Str := ((kids b).find? (·.name == x)).map (·.text)
+/-- the text the property set carries for variable `x`: that of the last element naming it -/
+def carried (x : Str) (b : Body) : Option Str := ((kids b).reverse.find? (·.name == x)).map (·.text)
 
 /-- observation of one variable: (name, value, updated_at tick) -/
 abbrev VarObs := Str × Option Val × Option Nat
